@@ -29,7 +29,10 @@ def main():
     checks = [pid]
     tier = "quick"
     src = "/tmp/seed/out"
+    suffix = ""
     for i, a in enumerate(args):
+        if a == "--suffix":
+            suffix = "-" + args[i + 1]
         if a == "--checks":
             checks = args[i + 1].split(",")
         if a == "--tier":
@@ -128,7 +131,7 @@ def main():
             print("%s-%s: %s" % (pid, var, line[:300]))
     meta["check_results"] = results
     notes = os.path.join(d, "NOTES.md")
-    out_dir = os.path.join("/verif/seeded", "%s-%s" % (pid, var))
+    out_dir = os.path.join("/verif/seeded", "%s-%s%s" % (pid, var, suffix))
     os.makedirs(out_dir, exist_ok=True)
     shutil.copy(patch, os.path.join(out_dir, "patch.diff"))
     shutil.copy(os.path.join(d, demo), os.path.join(out_dir, "demo_test.go.txt"))
